@@ -1446,7 +1446,11 @@ class NPFacade(types.ModuleType):
         return conds
 
     def allclose(self, a, b, rtol=1e-05, atol=1e-08, **k):
-        return bool(S.sb_and(self._close(a, b, rtol, atol)))
+        # evaluated entry by entry (short-circuit): each solver query then involves one entry only
+        for c in self._close(a, b, rtol, atol):
+            if not bool(c):
+                return False
+        return True
 
     def isclose(self, a, b, rtol=1e-05, atol=1e-08, **k):
         if _isq(a) or _isq(b):
